@@ -177,6 +177,26 @@ struct Out {
     /// `Reader::player_pos` / `Reader::input` after the last call, for the client ids asked for
     final_pos: Vec<(i32, Option<(i32, i32)>)>,
     final_inp: Vec<(i32, Option<[i32; 10]>)>,
+    /// first item after which `player_pos` / `input` / `cids` did not show what the item said
+    acc_fail: Option<String>,
+}
+
+/// The accessors right after an item was returned: the table entry of the item's client id is what
+/// the item reports (gone after `PlayerOld`), and `cids()` covers the id.
+fn accessors_after(ev: &Ev, pos: &dyn Fn(i32) -> Option<(i32, i32)>, inp: &dyn Fn(i32) -> Option<[i32; 10]>, cids_end: i32) -> Option<String> {
+    let (c, ok) = match ev {
+        Ev::New(c, x, y) | Ev::Change(c, x, y, _, _) => (*c, pos(*c) == Some((*x, *y))),
+        Ev::Old(c, _, _) => (*c, pos(*c).is_none()),
+        Ev::Input(c, v) => (*c, inp(*c) == Some(*v)),
+        _ => return None,
+    };
+    if !ok {
+        return Some(format!("after {:?}: player_pos({}) = {:?}, input({}) = {:?}", ev, c, pos(c), c, inp(c)));
+    }
+    if cids_end <= c && c != i32::MAX {
+        return Some(format!("after {:?}: cids().end = {}", ev, cids_end));
+    }
+    None
 }
 
 /// Non-negative client ids that occur in the stream's complete records (for the final table queries).
@@ -236,15 +256,19 @@ fn read_all_q(total: &[u8], ds: &[usize], ask: &[i32]) -> Result<Out, String> {
             Ok(x) => x,
             Err(e) => {
                 let fin = format!("err:{}", err_str(&e));
-                return Out { line: format!("{} 0 0 - P - I -", fin), evs, fin, header_version: None, cids_end: 0, final_pos: vec![], final_inp: vec![] };
+                return Out { line: format!("{} 0 0 - P - I -", fin), evs, fin, header_version: None, cids_end: 0, final_pos: vec![], final_inp: vec![], acc_fail: None };
             }
         };
         let mut items: Vec<String> = vec![];
+        let mut acc_fail: Option<String> = None;
         let fin;
         loop {
             match rd.read(&mut cb, &mut buf) {
                 Ok(Some(it)) => {
                     let (s, ev) = item_str(&it);
+                    if acc_fail.is_none() {
+                        acc_fail = accessors_after(&ev, &|c| rd.player_pos(c).map(|p| (p.x, p.y)), &|c| rd.input(c), rd.cids().end);
+                    }
                     items.push(s);
                     evs.push(ev);
                 }
@@ -263,7 +287,7 @@ fn read_all_q(total: &[u8], ds: &[usize], ask: &[i32]) -> Result<Out, String> {
         let line = format!("{} {} {} {} {}", fin, maxcid, items.len(), if items.is_empty() { "-".to_string() } else { items.join(" ") }, acc);
         let final_pos = ask.iter().map(|&c| (c, rd.player_pos(c).map(|p| (p.x, p.y)))).collect();
         let final_inp = ask.iter().map(|&c| (c, rd.input(c))).collect();
-        Out { line, evs, fin, header_version: Some(ver), cids_end: maxcid, final_pos, final_inp }
+        Out { line, evs, fin, header_version: Some(ver), cids_end: maxcid, final_pos, final_inp, acc_fail }
     })
 }
 
@@ -322,15 +346,19 @@ fn read_all_file(total: &[u8], ds: &[usize], ask: &[i32]) -> Result<Out, String>
             Ok(x) => x,
             Err(e) => {
                 let fin = format!("err:{}", ferr(&e));
-                return Out { line: format!("{} 0 0 - P - I -", fin), evs, fin, header_version: None, cids_end: 0, final_pos: vec![], final_inp: vec![] };
+                return Out { line: format!("{} 0 0 - P - I -", fin), evs, fin, header_version: None, cids_end: 0, final_pos: vec![], final_inp: vec![], acc_fail: None };
             }
         };
         let mut items: Vec<String> = vec![];
+        let mut acc_fail: Option<String> = None;
         let fin;
         loop {
             match rd.read(&mut buf) {
                 Ok(Some(it)) => {
                     let (s, ev) = item_str(&it);
+                    if acc_fail.is_none() {
+                        acc_fail = accessors_after(&ev, &|c| rd.player_pos(c).map(|p| (p.x, p.y)), &|c| rd.input(c), rd.cids().end);
+                    }
                     items.push(s);
                     evs.push(ev);
                 }
@@ -349,7 +377,7 @@ fn read_all_file(total: &[u8], ds: &[usize], ask: &[i32]) -> Result<Out, String>
         let line = format!("{} {} {} {} {}", fin, maxcid, items.len(), if items.is_empty() { "-".to_string() } else { items.join(" ") }, acc);
         let final_pos = ask.iter().map(|&c| (c, rd.player_pos(c).map(|p| (p.x, p.y)))).collect();
         let final_inp = ask.iter().map(|&c| (c, rd.input(c))).collect();
-        Out { line, evs, fin, header_version: Some(ver), cids_end: maxcid, final_pos, final_inp }
+        Out { line, evs, fin, header_version: Some(ver), cids_end: maxcid, final_pos, final_inp, acc_fail }
     });
     // the reader (and with it our end of the socket) is gone: the writer cannot block any more
     if let Some(w) = writer {
@@ -658,6 +686,10 @@ fn stream_is_valid(msgs: &[Msg], doc_ticks: &[i64]) -> bool {
 
 /// The property itself, evaluated on one reading of the implementation.
 fn oracle_structure(stream: &[u8], has_ex: bool, out: &Out, o: &mut Oracle, ctx: &str) {
+    // 0. the accessors after every item agree with the item
+    if let Some(m) = &out.acc_fail {
+        o.fail("C17/accessor-differs-from-item", format!("{} {}", m, ctx));
+    }
     // 1. nesting, strictly increasing tick numbers, every other item inside a tick
     let mut open: Option<i32> = None;
     let mut last: Option<i32> = None;
